@@ -220,6 +220,25 @@ theorem resolve_hangs_witness (fuel : Nat) :
   rw [e]
   exact cyclic_resolve_hangs fuel
 
+/-- **why a bounded-expansion guard was not added** (round 2 re-assessment).  A guard "raise after
+more than `c(|map|)` substitutions in one entry" changes no terminating run only if `c` is above
+what every acyclic map needs.  That need is exponential in the number of entries: the five acyclic
+definitions `z0=$(z1)$(z1), z1=$(z2)$(z2), z2=$(z3)$(z3), z3=$(z4)$(z4), z4=` make the loop of
+`z0` substitute 30 = 2^5 - 2 times (31 rounds of the model's loop, the last one finds no
+variable) while no value ever exceeds 20 characters — with `n` entries `2^n - 2` times.  A cap
+polynomial in the size of the map (or any cap on the value length: the oscillating witness above
+never grows) would refuse such terminating runs, and a cap of `2^|map|` is no guard in practice.
+Telling the cyclic definitions apart needs the set of variables under expansion, i.e. the real
+cycle detection that was judged too costly. -/
+theorem resolve_acyclic_needs_exponential_rounds :
+    let m : Keyval.Map := [("z0".toList, "$(z1)$(z1)".toList), ("z1".toList, "$(z2)$(z2)".toList),
+      ("z2".toList, "$(z3)$(z3)".toList), ("z3".toList, "$(z4)$(z4)".toList), ("z4".toList, [])]
+    resolveVariablesU '$' '(' ')' 30 m = .error .hang ∧
+    resolveVariablesU '$' '(' ')' 31 m =
+      .ok [("z0".toList, []), ("z1".toList, []), ("z2".toList, []), ("z3".toList, []), ("z4".toList, [])] := by
+  decide +kernel
+
+
 /- The full-strength termination statement
      `∀ am, ∃ F, ∀ fuel, F ≤ fuel → resolveVariablesU '$' '(' ')' fuel am ≠ .error .hang`
    is FALSE: `resolve_hangs_witness` refutes it (`resolve_termination_false` below). -/
